@@ -51,6 +51,10 @@ func CSSRule(selector string, style Style) (StyleSheet, error) {
 	if strings.ContainsRune(selector, '<') {
 		return StyleSheet{}, fmt.Errorf("selector %q contains '<'", selector)
 	}
+	if strings.HasPrefix(strings.TrimLeft(selector, " "), "-->") {
+		// In front of a rule a style sheet parser drops "-->" (CDC): the selector that is applied is not the one given.
+		return StyleSheet{}, fmt.Errorf("selector %q starts with %q", selector, "-->")
+	}
 	selectorWithoutStrings := cssStringPattern.ReplaceAllString(selector, "")
 	if matches := invalidCSSSelectorRune.FindStringSubmatch(selectorWithoutStrings); matches != nil {
 		return StyleSheet{}, fmt.Errorf("selector %q contains %q, which is disallowed outside of CSS strings", selector, matches[0])
